@@ -53,3 +53,18 @@ Theorem ipv6_wildcard_text : forall pre k, (1 <= length pre <= 7)%nat -> Forall 
   Res (length (wild6_text pre k)) (Some (16 * N.of_nat (length pre))) (pre ++ repeat 0 (8 - length pre)).
 Proof. exact wild6_run. Qed.
 Print Assumptions ipv6_wildcard_text.
+
+(* the short IPv4 CIDR form documented in modules/iauth.h ("missing trailing bits, as in 192.168/16"): the octets given are the
+   leading octets of the network, the prefix length is 96 + n *)
+Require CidrShort.
+Theorem ipv4_short_cidr_text : forall a b n, a < 256 -> b < 256 -> n <= 32 ->
+  pton (CidrShort.short2_text a b n) true false =
+  Res (length (CidrShort.short2_text a b n)) (Some (96 + n)) [0; 0; 0; 0; 0; 65535; a * 256 + b; 0].
+Proof. exact CidrShort.short_cidr4_2. Qed.
+Print Assumptions ipv4_short_cidr_text.
+
+Theorem ipv4_short_cidr_text_3 : forall a b c n, a < 256 -> b < 256 -> c < 256 -> n <= 32 ->
+  pton (CidrShort.short3_text a b c n) true false =
+  Res (length (CidrShort.short3_text a b c n)) (Some (96 + n)) [0; 0; 0; 0; 0; 65535; a * 256 + b; c * 256].
+Proof. exact CidrShort.short_cidr4_3. Qed.
+Print Assumptions ipv4_short_cidr_text_3.
